@@ -6,6 +6,7 @@ import (
 	"flag"
 	"fmt"
 	"os"
+	"runtime"
 	"runtime/debug"
 	"strings"
 	"time"
@@ -19,6 +20,7 @@ import (
 type bombRec struct {
 	Ev       string `json:"ev"`
 	Prefix   string `json:"prefix"`
+	Warm     bool   `json:"warm"`
 	PLen     int    `json:"plen"`
 	Shape    string `json:"shape"`
 	N        int    `json:"n"`
@@ -34,8 +36,8 @@ type bombRec struct {
 }
 
 func bombInput(shape string, n int, closed bool, prefix string) []byte {
-	units := map[string]string{"arr": "[", "obj": `{"k":`, "mixed": `[{"k":`, "pad": " [", "arrc": "[", "arrnf": "[0,", "objnf": `{"a":0,"k":`}
-	closers := map[string]string{"arr": "]", "obj": "}", "mixed": "}]", "pad": "]", "arrc": "]", "arrnf": "]", "objnf": "}"}
+	units := map[string]string{"arr": "[", "obj": `{"k":`, "mixed": `[{"k":`, "pad": " [", "arrc": "[", "arrnf": "[0,", "objnf": `{"a":0,"k":`, "objsp": `{"k": `}
+	closers := map[string]string{"arr": "]", "obj": "}", "mixed": "}]", "pad": "]", "arrc": "]", "arrnf": "]", "objnf": "}", "objsp": "}"}
 	u, ok := units[shape]
 	if !ok {
 		fmt.Fprintln(os.Stderr, "unknown shape", shape)
@@ -66,13 +68,22 @@ func bombMain(args []string) int {
 	entry := fs.String("entry", "Detect", "Detect|DetectReader|json|geo|har|gltf|ndjson")
 	maxStack := fs.Int("maxstack", 32<<20, "debug.SetMaxStack")
 	prefixKind := fs.String("prefix", "", "a valid beginning placed before the units: lead0 | leadq | leadobj | coords | feat")
+	warm := fs.Bool("warm", false, "detect a few short documents first (same process, one P, GC off)")
 	fs.Parse(args)
 
 	debug.SetMaxStack(*maxStack)
 	prefixes := map[string]string{"": "", "lead0": "[0,", "leadq": `["\"",`, "leadobj": `{"a":0,"k":`,
 		"coords": `{"type":"Polygon","coordinates":`, "feat": `{"type":"FeatureCollection","features":`}
+	if *warm {
+		// a history: short documents parsed first on the same pooled scanner state (one P, no GC in between)
+		runtime.GOMAXPROCS(1)
+		debug.SetGCPercent(-1)
+		for _, w := range []string{"[1]", `{"a":1}`, "{}\n[]\n", `{"type":"Feature"}`} {
+			mimetype.Detect([]byte(w))
+		}
+	}
 	in := bombInput(*shape, *n, *closed, prefixes[*prefixKind])
-	rec := bombRec{Ev: "bomb", Prefix: *prefixKind, PLen: len(prefixes[*prefixKind]), Shape: *shape, N: *n, Closed: *closed, Limit: *limit, Entry: *entry}
+	rec := bombRec{Ev: "bomb", Prefix: *prefixKind, PLen: len(prefixes[*prefixKind]), Shape: *shape, N: *n, Closed: *closed, Limit: *limit, Entry: *entry, Warm: *warm}
 	mimetype.VerifSetJSONHook(func(e mimetype.VerifJSONEvent) {
 		switch e.Kind {
 		case "lvl":
